@@ -108,6 +108,9 @@ class CellCycleController:
     # Active operations
     active_operations: dict[str, OperationContext] = field(default_factory=dict)
 
+    # operation_id -> resource_id the operation is currently blocked on
+    waiting_for: dict[str, str] = field(default_factory=dict)
+
     def __post_init__(self):
         # Set up default checkpoints if none provided
         if not self.checkpoints:
@@ -194,25 +197,38 @@ class CellCycleController:
         lock = self.resources[resource_id]
         result = lock.try_acquire(owner=ctx.operation_id, priority=ctx.priority)
 
-        if result == LockResult.ACQUIRED or result == LockResult.REENTRANT:
+        if result in (LockResult.ACQUIRED, LockResult.REENTRANT, LockResult.PREEMPTED):
             ctx.add_acquired_resource(lock)
-            # Remove any dependency since we now own it
-            self.dependency_graph.remove_all_for_agent(ctx.operation_id)
+            # We no longer wait for anything; whoever waits for this
+            # resource now waits for us
+            self._stop_waiting(ctx.operation_id)
+            self._retarget_waiters(lock)
 
         elif result == LockResult.BLOCKED:
             # Add to dependency graph
+            self._stop_waiting(ctx.operation_id)
+            self.waiting_for[ctx.operation_id] = resource_id
             self.dependency_graph.add_dependency(
                 waiter=ctx.operation_id,
                 blocking=lock.owner,
                 resource=resource_id,
             )
 
-        elif result == LockResult.PREEMPTED:
-            ctx.add_acquired_resource(lock)
-            # Clear old dependencies
-            self.dependency_graph.remove_all_for_agent(ctx.operation_id)
-
         return result
+
+    def _stop_waiting(self, operation_id: str) -> None:
+        """Drop the operation's own wait-for edges (not edges of its waiters)."""
+        self.waiting_for.pop(operation_id, None)
+        self.dependency_graph.edges.pop(operation_id, None)
+
+    def _retarget_waiters(self, lock: ResourceLock) -> None:
+        """Point every operation blocked on this resource at its current owner."""
+        for waiter, resource_id in self.waiting_for.items():
+            if resource_id != lock.resource_id:
+                continue
+            self.dependency_graph.edges.pop(waiter, None)
+            if lock.owner is not None and lock.owner != waiter:
+                self.dependency_graph.add_dependency(waiter, lock.owner, resource_id)
 
     def release_resource(self, ctx: OperationContext, resource_id: str) -> bool:
         """Release a resource."""
@@ -226,7 +242,8 @@ class CellCycleController:
             # (a reentrantly held lock stays tracked until its last release)
             del ctx.acquired_resources[resource_id]
         if released:
-            self.dependency_graph.remove_all_for_agent(ctx.operation_id)
+            # Only operations waiting for *this* resource are affected
+            self._retarget_waiters(lock)
 
         return released
 
@@ -249,6 +266,8 @@ class CellCycleController:
         Releases all resources and cleans up.
         """
         self.release_all_resources(ctx)
+        self._stop_waiting(ctx.operation_id)
+        self.dependency_graph.remove_all_for_agent(ctx.operation_id)
         ctx.enter_phase(Phase.G0)
 
         if ctx.operation_id in self.active_operations:
@@ -275,6 +294,8 @@ class CellCycleController:
         Releases all resources and cleans up.
         """
         self.release_all_resources(ctx)
+        self._stop_waiting(ctx.operation_id)
+        self.dependency_graph.remove_all_for_agent(ctx.operation_id)
         ctx.enter_phase(Phase.G0)
 
         if ctx.operation_id in self.active_operations:
